@@ -605,10 +605,23 @@ def run_c03_paths(tmp, tier, rnd):
     (root / "long.py").write_text(body("py", "big", 70))
     (root / "latin.py").write_bytes(("# caf\xe9\n" + body("py", "latin", 40)).encode("latin-1"))
     (root / "bin.py").write_bytes(bytes(range(256)))
+    # several functions of exactly the same length (ties in any ordering of the findings)
+    (root / "ties.py").write_text(body("py", "one", 40) + body("py", "two", 40) + body("py", "three", 40) + body("py", "four", 70) + body("py", "five", 70))
+    (root / "ties.js").write_text(body("js", "one", 35) + body("js", "two", 35))
     other = Path(tmp) / "w3" / "elsewhere"
     other.mkdir(parents=True, exist_ok=True)
+    # directories whose names extend the name of the working directory (string prefix, not a path prefix)
+    for sib in ("proj-old", "proj2", "projects/sub"):
+        d = Path(tmp) / "w3" / sib
+        d.mkdir(parents=True, exist_ok=True)
+        (d / "long.py").write_text(body("py", "big", 70))
     set_excludes([])
     ways = []
+    for sib in ("proj-old", "proj2", "projects/sub"):
+        d = (Path(tmp) / "w3" / sib).resolve()
+        ways += [("sibling-file-absolute", root, str(d / "long.py")), ("sibling-dir-absolute", root, str(d)),
+                 ("sibling-file-relative", root, os.path.relpath(d / "long.py", root)), ("sibling-dir-relative", root, os.path.relpath(d, root))]
+    ways += [("relative", root, "ties.py"), ("relative", root, "ties.js"), ("absolute", root, str((root / "ties.py").resolve()))]
     for f in ("long.py", "latin.py", "bin.py", "src"):
         ways += [("relative", root, f), ("absolute", root, str((root / f).resolve())), ("from-elsewhere-absolute", other, str((root / f).resolve())),
                  ("from-elsewhere-relative", other, os.path.relpath(root / f, other))]
@@ -666,11 +679,15 @@ def run_c02(tmp, tier, rnd):
     combos += [list(c) for c in itertools.permutations(units, 2)][:: (2 if tier == "quick" else 1)]
     for _ in range(20 if tier == "quick" else 300):
         combos.append(rnd.sample(units, rnd.randint(3, 5)))
+    # the same file reached twice: named twice, or through its directory and by name (relative and absolute)
+    combos += [["f31.py", "f31.py"], ["f61.c", "f90.py", "f61.c"], ["bad", "bad/f61.c"], ["hard/f60.js", "hard"],
+               [str(root / "bad"), str(root / "bad" / "f61.c")]]
     with cwd(root):
         for combo in combos:
             ls = []
             for u in combo:
-                ls += dirs[u] if u in dirs else [lengths[u]]
+                key = os.path.relpath(u, root) if os.path.isabs(u) else u
+                ls += dirs[key] if key in dirs else [lengths[os.path.basename(key)]]
             for qf in (False, True):
                 n += 1
                 try:
@@ -686,14 +703,22 @@ def run_c02(tmp, tier, rnd):
                     fails.append(("listing", f"check {' '.join(combo)} quiet={qf}: functions of lengths {want_listed} not listed in {text[-200:]!r}", None))
                 m = re.search(r"(\d+) functions? need", text)
                 if want_listed:
-                    if not m or int(m.group(1)) != len(want_listed):
+                    # a file named twice may be listed once or once per mention - the statement fixes neither - but the summary
+                    # must count what is listed
+                    phys = {}
+                    for u in combo:
+                        key = os.path.relpath(u, root) if os.path.isabs(u) else u
+                        for f_ in ([key + "/" + x for x in os.listdir(key)] if key in dirs else [key]):
+                            phys[os.path.realpath(f_)] = lengths[os.path.basename(f_)]
+                    distinct_n = sum(1 for v in phys.values() if v > 30)
+                    allowed = {len(want_listed), distinct_n}
+                    listed_n = text.count("fn_")
+                    if listed_n not in allowed:
+                        fails.append(("listing", f"check {' '.join(combo)} quiet={qf}: {listed_n} functions listed, expected "
+                                      f"{sorted(allowed)} (lengths {ls})", None))
+                    if not m or int(m.group(1)) != listed_n:
                         fails.append(("summary-count", f"check {' '.join(combo)} quiet={qf}: summary {m.group(0) if m else None!r}, "
-                                      f"expected {len(want_listed)} functions (lengths {ls})", None))
-                    for x in want_listed:
-                        if text.count(f"fn_") < len(want_listed):
-                            fails.append(("listing", f"check {' '.join(combo)} quiet={qf}: {text.count('fn_')} functions listed, expected "
-                                          f"{len(want_listed)} (lengths {ls})", None))
-                            break
+                                      f"but {listed_n} functions are listed (lengths {ls})", None))
                 else:
                     if m:
                         fails.append(("summary-count", f"check {' '.join(combo)}: claims {m.group(0)!r} but no function is longer than 30", None))
@@ -705,6 +730,42 @@ def run_c02(tmp, tier, rnd):
                     fails.append(("quiet", f"check {' '.join(combo)} printed nothing without --quiet", None))
                 if qf and want_listed and not text.strip():
                     fails.append(("quiet", f"check --quiet {' '.join(combo)} printed nothing although {want_listed} need refactoring", None))
+    # the overview the scan command prints while scanning: per-language counters of this scan only, also when another tree
+    # was scanned before in the same process
+    import re
+    from codelimit.commands.scan import scan_command
+    trees = {"A": ["f31.py", "f61.c"], "B": ["f60.js", "f90.py", "f15.py"], "C": ["f30.c", "f31.py", "g31.ts"]}
+    langs = {"py": "Python", "js": "JavaScript", "c": "C", "ts": "TypeScript"}
+    for order in (["A", "B"], ["B", "A", "C"], ["C", "C"]):
+        for t in order:
+            tr = Path(tmp) / "w2" / ("tree" + t)
+            if tr.exists():
+                shutil.rmtree(tr)
+            tr.mkdir()
+            for nm in trees[t]:
+                shutil.copy(root / nm, tr / nm)
+            n += 1
+            set_excludes([])
+            try:
+                with quiet() as buf:
+                    scan_command(tr)
+                text = buf.getvalue()
+            except BaseException as e:  # noqa
+                fails.append(("scan-exception", f"scan of tree {t} after {order}: {type(e).__name__}: {e}", None))
+                continue
+            want = {}
+            for nm in trees[t]:
+                r = want.setdefault(langs[nm.rsplit(".", 1)[-1]], [0, 0, 0, 0, 0])
+                ln = lengths[nm]
+                r[0] += 1; r[1] += 1; r[2] += ln; r[3] += 1 if 30 < ln <= 60 else 0; r[4] += 1 if ln > 60 else 0
+            got = {}
+            for line in text.splitlines():
+                for lg in want:
+                    if line.strip().startswith(lg + " "):
+                        got[lg] = [int(x) for x in re.findall(r"\d+", line.strip()[len(lg):])][:5]
+            if got != want:
+                fails.append(("scan-overview", f"scanning {order[:order.index(t) + 1] if order.count(t) == 1 else order} in one process: overview of tree {t} shows "
+                              f"{got}, expected {want} [files, functions, lines, hard-to-maintain, unmaintainable]", None))
     return fails, n
 
 
